@@ -540,6 +540,9 @@ func (m *BaseUndoLogManager) deserializeBranchUndoLog(rbInfo []byte, logCtx map[
 		if logParser, err = parser.GetCache().Load(serialzerType); err != nil {
 			return nil, err
 		}
+	} else if logParser, err = parser.GetCache().GetDefault(); err != nil {
+		// a context that names no serializer: fall back to the default one instead of calling a nil parser
+		return nil, err
 	}
 
 	var branchUndoLog *undo.BranchUndoLog
